@@ -203,13 +203,86 @@ REGRESSION = [dict(family="triclinic", cell=[4.1, 5.2, 6.3, 80., 95., 105.], sym
                    r1=7, r2=0, U=gens.rotation_from_seed(5), seed=1, crange=1e-4)]
 
 
+# ------------------------------------------------------------------ a ring completed by a second makerings call
+
+@st.composite
+def splitcases(draw):
+    a = draw(st.floats(3.0, 8.0, allow_nan=False, width=64))
+    delta = draw(st.sampled_from([5e-4, 1e-3, 2e-3]))
+    cratio = draw(st.floats(1.45, 1.8, allow_nan=False, width=64))
+    U = draw(gens.rotations())
+    which = draw(st.sampled_from(["ab", "ba"]))
+    return dict(a=a, delta=delta, cratio=cratio, U=U, which=which)
+
+
+def check_split(case, rec=None):
+    """Pseudo-tetragonal cell: (010) and (100) fall into one ring.  First the rings are made with a limit between the
+    two d*, so the ring holds one family only, and a pair table is built; then the limit is raised just enough to
+    complete that ring without adding another one (the list of ring positions is unchanged).  A peak of the family
+    that arrived late must be oriented correctly."""
+    from ImageD11 import unitcell
+    a, d = case["a"], case["delta"]
+    cell = [a, a * (1 + d), a * case["cratio"], 90.0, 90.0, 90.0]
+    if case["which"] == "ba":
+        cell[0], cell[1] = cell[1], cell[0]
+    B = gens.busing_levy_B(cell)
+    UB = np.asarray(case["U"], float) @ B
+    dsa, dsb = sorted([1.0 / cell[0], 1.0 / cell[1]])
+    tol = 3 * (dsb - dsa)
+    lim1 = 0.5 * (dsa + dsb) - tol
+    lim2 = dsb + 0.25 * (dsb - dsa)
+    ok, uc = guard(unitcell.unitcell, cell, "P")
+    if not ok:
+        return [exc_failure("unitcell()", uc)]
+    fails = []
+    ok, e = guard(uc.makerings, lim1, tol)
+    if not ok:
+        return [exc_failure("makerings", e)]
+    rings1 = [list(map(tuple, uc.ringhkls[x])) for x in uc.ringds]
+    if len(rings1) != 2 or len(rings1[1]) != 2:
+        raise RuntimeError("harness: expected rings {00l} and one of the two in-plane families, got %s" % rings1)
+    early = np.array(rings1[1][0], float)
+    late = np.array([1.0, 0, 0]) if abs(early[1]) == 1 else np.array([0, 1.0, 0])
+    g001 = UB @ np.array([0, 0, 1.0])
+    ok, e = guard(uc.orient, 0, g001.copy(), 1, UB @ early, 0, 1e-7)
+    if not ok:
+        return [exc_failure("orient (first limit)", e)]
+    if not any(equivalent(np.asarray(u, float), UB) for u in uc.UBIlist):
+        fails.append(fail("split", "orient with the early family: generating orientation not among the candidates",
+                          mode="split"))
+    ok, e = guard(uc.makerings, lim2, tol)
+    if not ok:
+        return fails + [exc_failure("makerings (second limit)", e)]
+    rings2 = [list(map(tuple, uc.ringhkls[x])) for x in uc.ringds]
+    if len(rings2) != 2 or len(rings2[1]) != 4:
+        raise RuntimeError("harness: second limit should complete ring 1 only, got %s" % rings2)
+    for hk in (late, -late, early):
+        ok, e = guard(uc.orient, 0, g001.copy(), 1, UB @ hk, 0, 1e-7)
+        if not ok:
+            fails.append(exc_failure("orient (ring completed by the second makerings)", e))
+            break
+        cands = [np.asarray(u, float) for u in uc.UBIlist]
+        if not any(equivalent(u, UB) for u in cands):
+            fails.append(fail("split", "after makerings(%.6g) then makerings(%.6g) (same tolerance, same ring positions, "
+                              "ring 1 grown from 2 to 4 reflections): orient with %s of the late family returns %d "
+                              "candidates, none equivalent to the generating orientation; cell %s" %
+                              (lim1, lim2, hk.tolist(), len(cands), np.round(cell, 5).tolist()), mode="split"))
+            break
+    if rec is not None:
+        rec.case(dict(case, U=np.asarray(case["U"])), True, ["ring_completed_later"])
+    return fails
+
+
 def run_shard(rec):
     quick = rec.tier == "quick"
     if rec.shard == 0:
         run_cases(rec, "pairs", REGRESSION, lambda c: check(c, rec, allpairs=True))
     hyp_run(rec, "pairs", cases(), lambda c: check(c, rec, allpairs=not quick),
             max_examples=200 if quick else 2500)
+    hyp_run(rec, "split", splitcases(), lambda c: check_split(c, rec), max_examples=25 if quick else 300)
 
 
 def replay(sub, case, rec):
+    if sub == "split":
+        return check_split(case, rec)
     return check(case, rec, allpairs=True)
